@@ -1,4 +1,212 @@
 import PeptVerif.Model.Proto
-/-! driver for C20 (placeholder: replies bad-op to everything until the model is written) -/
-def step (_line : String) : String := "bad-op"
-def main : IO Unit := Proto.runDriver step
+import PeptVerif.Model.Annotation
+import PeptVerif.Model.AnnotEq
+import PeptVerif.Model.ModDict
+/-!
+driver for C20: equality, modification dictionaries, strip, create_annotation.
+
+Dictionary wire: entries joined by `~`, each `key:value`; keys `isotope static labile unknown nterm cterm intervals
+charge charge_adducts internal` or an integer; values `N`, `L<mods ;>`, `V<intervals ;>`, `C<int>`, `D<k=mods&;…>`.
+create_annotation wire: eleven `|`-separated fields like an annotation; list fields are `N`, `S<item>` or
+`L<item>;…` with items `r<val>` (raw value) or `m<val>^<mult>` (Mod); internal `N` or `D<k>=<input with &>;…`;
+intervals `N`, `S<iv>` or `V<iv>;…` with `iv` = `t<s>,<e>,<amb>,<input with &>` (tuple) or `i<s>,<e>,<amb>,<N|Lmods&>`.
+-/
+open Proto Pept Pept.Wire
+
+def showBool (b : Bool) : String := if b then "True" else "False"
+
+def showKey : DKey → String
+  | .isotope => "isotope" | .static => "static" | .labile => "labile" | .unknown => "unknown"
+  | .nterm => "nterm" | .cterm => "cterm" | .intervals => "intervals" | .charge => "charge"
+  | .adducts => "charge_adducts" | .internal => "internal" | .idx i => toString i
+
+def showDVal : DVal → String
+  | .none => "N"
+  | .mods l => "L" ++ showModsWith ";" l
+  | .ivs l => showIntervals (some l)
+  | .charge c => "C" ++ toString c
+  | .dict d => showInternal (some d)
+
+def showDict (d : ModDict) : String := "~".intercalate (d.map fun p => showKey p.1 ++ ":" ++ showDVal p.2)
+
+def parseKey? (s : String) : Option DKey :=
+  match s with
+  | "isotope" => some .isotope | "static" => some .static | "labile" => some .labile | "unknown" => some .unknown
+  | "nterm" => some .nterm | "cterm" => some .cterm | "intervals" => some .intervals | "charge" => some .charge
+  | "charge_adducts" => some .adducts | "internal" => some .internal
+  | _ => s.toInt?.map .idx
+
+def parseDVal? (s : String) : Option DVal :=
+  match s.toList with
+  | ['N'] => some .none
+  | 'L' :: r => (parseModsWith? ";" (String.ofList r)).map .mods
+  | 'V' :: _ => match parseIntervals? s with | some (some l) => some (.ivs l) | _ => none
+  | 'C' :: r => (String.ofList r).toInt?.map .charge
+  | 'D' :: _ => match parseInternal? s with | some (some d) => some (.dict d) | _ => none
+  | _ => none
+
+/-- key/value typing as `add_mod_dict` expects it -/
+def wellTyped : DKey → DVal → Bool
+  | .intervals, .ivs _ => true
+  | .intervals, .none => true
+  | .charge, .charge _ => true
+  | .charge, .none => true
+  | .internal, .dict _ => true
+  | .idx _, .mods _ => true
+  | .isotope, .mods _ | .static, .mods _ | .labile, .mods _ | .unknown, .mods _ | .nterm, .mods _
+  | .cterm, .mods _ | .adducts, .mods _ => true
+  | .isotope, .none | .static, .none | .labile, .none | .unknown, .none | .nterm, .none
+  | .cterm, .none | .adducts, .none => true
+  | _, _ => false
+
+def parseDict? (s : String) : Option ModDict :=
+  if s.isEmpty then some [] else
+  (s.splitOn "~").mapM fun (e : String) =>
+    match e.splitOn ":" with
+    | [k, v] => do
+      let k ← parseKey? k
+      let v ← parseDVal? v
+      if wellTyped k v then pure (k, v) else none
+    | _ => none
+
+def parseItem? (s : String) : Option ModItem :=
+  match s.toList with
+  | 'r' :: r => (parseVal? (String.ofList r)).map .raw
+  | 'm' :: r => (parseMod? (String.ofList r)).map .mod
+  | _ => none
+
+def parseInput? (sep : String) (s : String) : Option (Option ModInput) :=
+  match s.toList with
+  | ['N'] => some none
+  | 'S' :: r => (parseItem? (String.ofList r)).map fun i => some (.single i)
+  | 'L' :: r =>
+    let body := String.ofList r
+    if body.isEmpty then some (some (.list [])) else
+    ((body.splitOn sep).mapM parseItem?).map fun l => some (.list l)
+  | _ => none
+
+def parseIvItem? (s : String) : Option IvItem :=
+  match s.toList with
+  | 't' :: r =>
+    match (String.ofList r).splitOn "," with
+    | [a, b, c, m] => do
+      let a ← a.toInt?
+      let b ← b.toInt?
+      let c ← parseBool? c
+      let m ← parseInput? "&" m
+      pure (.tuple a b c m)
+    | _ => none
+  | 'i' :: r => (parseInterval? (String.ofList r)).map .iv
+  | _ => none
+
+def parseIvInput? (s : String) : Option (Option IvInput) :=
+  match s.toList with
+  | ['N'] => some none
+  | 'S' :: r => (parseIvItem? (String.ofList r)).map fun i => some (.single i)
+  | 'V' :: r =>
+    let body := String.ofList r
+    if body.isEmpty then some (some (.list [])) else
+    ((body.splitOn ";").mapM parseIvItem?).map fun l => some (.list l)
+  | _ => none
+
+def parseInternalInput? (s : String) : Option (Option (List (Int × ModInput))) :=
+  match s.toList with
+  | ['N'] => some none
+  | 'D' :: r =>
+    let body := String.ofList r
+    if body.isEmpty then some (some []) else
+    ((body.splitOn ";").mapM fun (e : String) =>
+      match e.splitOn "=" with
+      | [k, v] => do
+        let k ← k.toInt?
+        let v ← parseInput? "&" v
+        match v with
+        | some v => pure (k, v)
+        | none => none
+      | _ => none).map some
+  | _ => none
+
+def parseArgs? (s : String) : Option CreateArgs :=
+  match s.splitOn "|" with
+  | [sq, iso, sta, lab, unk, nt, ct, int, ivs, ch, add] => do
+    let sq ← unesc sq
+    let iso ← parseInput? ";" iso
+    let sta ← parseInput? ";" sta
+    let lab ← parseInput? ";" lab
+    let unk ← parseInput? ";" unk
+    let nt ← parseInput? ";" nt
+    let ct ← parseInput? ";" ct
+    let int ← parseInternalInput? int
+    let ivs ← parseIvInput? ivs
+    let ch ← parseOptInt? ch
+    let add ← parseInput? ";" add
+    pure { seq := sq, isotope := iso, static := sta, labile := lab, unknown := unk, nterm := nt, cterm := ct,
+           internal := int, intervals := ivs, charge := ch, adducts := add }
+  | _ => none
+
+def showKeyVal : ValKey → String
+  | .num m e => "num," ++ toString m ++ "," ++ toString e
+  | .text s => "text," ++ esc s
+  | .other r => "other," ++ esc r
+
+def step (line : String) : String :=
+  match splitTab line with
+  | ["eq", a, b] =>
+    match parseAnnotation? a, parseAnnotation? b with
+    | some a, some b => showBool (annEq a b)
+    | _, _ => "bad-op"
+  | ["modseq", a, b] =>
+    match parseOptMods? ";" a, parseOptMods? ";" b with
+    | some a, some b => showBool (areModsEqual a b)
+    | _, _ => "bad-op"
+  | ["ivseq", a, b] =>
+    match parseIntervals? a, parseIntervals? b with
+    | some a, some b => showBool (areIntervalsEqual a b)
+    | _, _ => "bad-op"
+  | ["valeq", a, b] =>
+    match parseVal? a, parseVal? b with
+    | some a, some b => showBool (valEq a b)
+    | _, _ => "bad-op"
+  | ["valkey", a] =>
+    match parseVal? a with
+    | some a => showKeyVal (valKey a)
+    | _ => "bad-op"
+  | ["moddict", a] =>
+    match parseAnnotation? a with
+    | some a => showDict (modDict a)
+    | none => "bad-op"
+  | ["addmoddict", a, d, app] =>
+    match parseAnnotation? a, parseDict? d, parseBool? app with
+    | some a, some d, some app => showAnnotation (addModDict a d app)
+    | _, _, _ => "bad-op"
+  | ["addget", a] =>
+    match parseAnnotation? a with
+    | some a => showAnnotation (addModDict (strip a) (modDict a))
+    | none => "bad-op"
+  | ["popmods", a] =>
+    match parseAnnotation? a with
+    | some a => let r := popMods a; showDict r.1 ++ "!" ++ showAnnotation r.2
+    | none => "bad-op"
+  | ["ptpopmods", a] =>
+    match parseAnnotation? a with
+    | some a => let r := ptPopMods a; esc r.1 ++ "!" ++ showDict r.2
+    | none => "bad-op"
+  | ["strip", a] =>
+    match parseAnnotation? a with
+    | some a => showAnnotation (strip a)
+    | none => "bad-op"
+  | ["copy", a] =>
+    match parseAnnotation? a with
+    | some a => showAnnotation (copy a)
+    | none => "bad-op"
+  | ["create", c] =>
+    match parseArgs? c with
+    | some c => showAnnotation (createAnnotation c)
+    | none => "bad-op"
+  | ["createdict", a] =>
+    match parseAnnotation? a with
+    | some a => showAnnotation (createAnnotation (dictArgs a))
+    | none => "bad-op"
+  | _ => "bad-op"
+
+def main : IO Unit := runDriver step
